@@ -44,6 +44,7 @@ func verdictInit(init string) bool { return init == "none" || init == "shared" }
 type c41Replayable struct {
 	Init    string   `json:"init"`
 	Dialers string   `json:"dialers"`
+	Order   string   `json:"order,omitempty"`
 	Trace   []string `json:"trace"`
 	Class   string   `json:"class"`
 }
@@ -149,10 +150,10 @@ type replayJob struct {
 	err   error
 }
 
-func runReplays(tb *tables, jobs []*replayJob) {
+func runReplays(tb *tablePair, jobs []*replayJob) {
 	workers := runtime.NumCPU()
-	if workers > 12 {
-		workers = 12
+	if workers > 16 {
+		workers = 16
 	}
 	var wg sync.WaitGroup
 	ch := make(chan *replayJob)
@@ -287,26 +288,37 @@ func c41(c *report.Check) {
 	ctx := context.Background()
 
 	// ---- 1. tables from the real code ----
-	tb, err := extractTables(ctx)
+	tb, err := extractTablePair(ctx)
 	if err != nil {
 		c.Internal("table extraction: " + err.Error())
 		return
 	}
 	tdist := report.NewDistinct(0)
-	for _, k := range tb.sortedKeys() {
-		tdist.See(tb.Decide[k].class(), nil)
+	for _, t := range tb.T {
+		for _, k := range t.sortedKeys() {
+			tdist.See(t.Decide[k].class(), nil)
+		}
 	}
 	c.Set("table_rows_on_real_code", tb.Rows)
 	c.Set("table_outcome_classes", tdist.N())
-	c.Set("table_decide", tb.render(true))
+	c.Set("table_decide", tb.T[0].render(true))
 	sent := []string{}
 	for _, d := range allDirs {
 		for _, s := range allSnaps {
-			sent = append(sent, d+s+" sends "+tb.Sent[d+s])
+			sent = append(sent, d+s+" sends "+tb.T[0].Sent[d+s])
 		}
 	}
 	c.Set("table_status_sent", sent)
-	c.Set("table_reap", tb.Reap)
+	c.Set("table_reap", tb.T[0].Reap)
+	orders := []string{""}
+	if tb.Same {
+		c.Set("table_address_order", "tables extracted with the transport's address lower and higher than its peer's are identical: decisions do not depend on identity order, one order explored")
+	} else {
+		c.Set("table_address_order", "decisions depend on which peer has the lower address: both orders explored; table_decide is the lower-address side, table_decide_higher_address the other")
+		c.Set("table_decide_higher_address", tb.T[1].render(true))
+		c.Set("table_reap_higher_address", tb.T[1].Reap)
+		orders = []string{"", "B<A"}
+	}
 
 	// ---- 2. exhaustive search ----
 	states, trans, quiescent := 0, 0, 0
@@ -320,65 +332,88 @@ func c41(c *report.Check) {
 	deadDial := 0
 	closureBroken := []string{}
 	var jobs []*replayJob
-	for _, in := range allInits {
-		for _, dl := range allDialers {
-			cfg := mconfig{in, dl}
-			g, err := explore(cfg, tb)
-			if err != nil {
-				c.Internal("model: " + err.Error())
-				return
-			}
-			cfgs = append(cfgs, cfg)
-			graphs[cfg] = g
-			states += len(g.states)
-			trans += g.trans
-			nt := g.completeTraces()
-			totalTraces += nt
-			nq, nv := 0, 0
-			for i := range g.states {
-				if !g.quiet[i] {
-					continue
+	for _, ord := range orders {
+		for _, in := range allInits {
+			for _, dl := range allDialers {
+				cfg := mconfig{in, dl, ord}
+				g, err := explore(cfg, tb)
+				if err != nil {
+					c.Internal("model: " + err.Error())
+					return
 				}
-				nq++
-				st := &g.states[i]
-				tr := g.trace(i)
-				outcomes.See(cfg.String()+" "+st.outcome(), map[string]any{"config": cfg.String(), "trace": traceStr(tr), "outcome": st.outcome()})
-				for s := 0; s < 2; s++ {
-					if d := st.Dial[s]; d.Conn >= 0 && closedByNegotiation(st.Closed[d.Conn]) {
-						deadDial++
-						break
+				cfgs = append(cfgs, cfg)
+				graphs[cfg] = g
+				states += len(g.states)
+				trans += g.trans
+				nt := g.completeTraces()
+				totalTraces += nt
+				nq, nv := 0, 0
+				for i := range g.states {
+					if !g.quiet[i] {
+						continue
 					}
-				}
-				if verdictInit(in) && st.Cache[pA] != st.Cache[pB] {
-					closureBroken = append(closureBroken, cfg.String()+": "+st.outcome())
-				}
-				why := "quiescent"
-				if cls := violationClass(st, cfg); cls != "" {
-					nv++
-					why = "violation"
-					m := classes
-					if !verdictInit(in) {
-						m = condClasses
-					}
-					ci, ok := m[cls]
-					if !ok || len(tr) < len(ci.trace) {
-						n := 0
-						if ok {
-							n = ci.count
+					nq++
+					st := &g.states[i]
+					tr := g.trace(i)
+					outcomes.See(cfg.String()+" "+st.outcome(), map[string]any{"config": cfg.String(), "trace": traceStr(tr), "outcome": st.outcome()})
+					for s := 0; s < 2; s++ {
+						if d := st.Dial[s]; d.Conn >= 0 && closedByNegotiation(st.Closed[d.Conn]) {
+							deadDial++
+							break
 						}
-						ci = &classInfo{cfg: cfg, state: i, trace: tr, count: n, reason: st.clauses(cfg), out: st.outcome()}
-						m[cls] = ci
 					}
-					ci.count++
+					if verdictInit(in) && st.Cache[pA] != st.Cache[pB] {
+						closureBroken = append(closureBroken, cfg.String()+": "+st.outcome())
+					}
+					why := "quiescent"
+					if cls := violationClass(st, cfg); cls != "" {
+						nv++
+						why = "violation"
+						m := classes
+						if !verdictInit(in) {
+							m = condClasses
+						}
+						ci, ok := m[cls]
+						if !ok || len(tr) < len(ci.trace) {
+							n := 0
+							if ok {
+								n = ci.count
+							}
+							ci = &classInfo{cfg: cfg, state: i, trace: tr, count: n, reason: st.clauses(cfg), out: st.outcome()}
+							m[cls] = ci
+						}
+						ci.count++
+					}
+					// conformance: the shortest trace to EVERY quiescent state (all violating ones included)
+					jobs = append(jobs, &replayJob{cfg: cfg, trace: tr, why: why})
 				}
-				// conformance: the shortest trace to EVERY quiescent state (all violating ones included)
-				jobs = append(jobs, &replayJob{cfg: cfg, trace: tr, why: why})
+				quiescent += nq
+				perCfg = append(perCfg, fmt.Sprintf("%s: states=%d transitions=%d quiescent=%d violating_quiescent=%d complete_interleavings=%d", cfg, len(g.states), g.trans, nq, nv, nt))
 			}
-			quiescent += nq
-			perCfg = append(perCfg, fmt.Sprintf("%s: states=%d transitions=%d quiescent=%d violating_quiescent=%d complete_interleavings=%d", cfg, len(g.states), g.trans, nq, nv, nt))
 		}
 	}
 	nEdge, nAll := 0, 0
+	// every complete interleaving of the configurations whose trace count allows it
+	allLimit := uint64(100)
+	if c.Thorough() {
+		allLimit = 200000
+	}
+	var allOf []string
+	for _, cfg := range cfgs {
+		g := graphs[cfg]
+		lim := allLimit
+		if cfg.Order != "" && lim > 5000 {
+			lim = 5000 // second address order (only on a tree with an identity tie-break): bound the total cost
+		}
+		if n := g.completeTraces(); n <= lim {
+			for _, tr := range g.allTraces(int(n) + 1) {
+				jobs = append(jobs, &replayJob{cfg: cfg, trace: tr, why: "all"})
+				nAll++
+			}
+			allOf = append(allOf, fmt.Sprintf("%s (%d)", cfg, n))
+		}
+	}
+	c.Set("configurations_with_every_complete_interleaving_replayed", allOf)
 	if c.Thorough() {
 		for _, cfg := range cfgs {
 			for _, tr := range graphs[cfg].edgeCover() {
@@ -387,10 +422,15 @@ func c41(c *report.Check) {
 			}
 		}
 	} else {
-		// quick: transition cover of the core scenario only
-		for _, tr := range graphs[mconfig{"none", "AB"}].edgeCover() {
-			jobs = append(jobs, &replayJob{cfg: mconfig{"none", "AB"}, trace: tr, why: "edge"})
-			nEdge++
+		// quick: transition cover of the configurations that start from a consistent cache state
+		for _, cfg := range cfgs {
+			if !verdictInit(cfg.Init) {
+				continue
+			}
+			for _, tr := range graphs[cfg].edgeCover() {
+				jobs = append(jobs, &replayJob{cfg: cfg, trace: tr, why: "edge"})
+				nEdge++
+			}
 		}
 	}
 	c.Set("states", states)
@@ -426,8 +466,9 @@ func c41(c *report.Check) {
 	c.Set("traces_replayed_by_kind", byWhy)
 	c.Set("traces_validated_against_impl", tb.Rows+okN)
 	c.Set("evaluations", tb.Rows+okN)
-	_ = nAll
-	c.Set("rule", "table: every (direction x cache at snapshot x cache at decision x peer status incl. malformed) row run on the real reuseConnection, every reapPeer row; model: BFS over all interleavings of the atomic steps for each (initial cache state x who dials); conformance: shortest trace to every quiescent state (every violating one included) plus a transition cover, replayed on two real transports through gates, compared after every step")
+	c.Set("replayed_complete_interleavings", nAll)
+	c.Set("replayed_transition_cover_traces", nEdge)
+	c.Set("rule", "table: every (direction x cache at snapshot x cache at decision x peer status incl. malformed) row run on the real reuseConnection, every reapPeer row; model: BFS over all interleavings of the atomic steps for each (initial cache state x who dials); conformance: shortest trace to every quiescent state (every violating one included), a transition cover (thorough: of every configuration, quick: of the configurations with init=none/shared) and every complete interleaving of the configurations listed, replayed on two real transports through gates, compared after every step")
 	if len(bad) > 0 {
 		for i, b := range bad {
 			if i < 5 {
@@ -471,7 +512,7 @@ func c41(c *report.Check) {
 		}
 		c.Violation("c41:"+k,
 			fmt.Sprintf("%s, trace [%s] confirmed step by step on two real QUIC transports: %s; end state %s", ci.cfg, traceStr(ci.trace), strings.Join(rs, "; "), ci.out),
-			c41Replayable{Init: ci.cfg.Init, Dialers: ci.cfg.Dialers, Trace: stepStrings(ci.trace), Class: k})
+			c41Replayable{Init: ci.cfg.Init, Dialers: ci.cfg.Dialers, Order: ci.cfg.Order, Trace: stepStrings(ci.trace), Class: k})
 	}
 
 	c.Set("exhaustive", true)
@@ -490,12 +531,12 @@ func c41Replay(c *report.Check, raw []byte) {
 		c.Internal(err.Error())
 		return
 	}
-	tb, err := extractTables(context.Background())
+	tb, err := extractTablePair(context.Background())
 	if err != nil {
 		c.Internal("table extraction: " + err.Error())
 		return
 	}
-	cfg := mconfig{r.Init, r.Dialers}
+	cfg := mconfig{r.Init, r.Dialers, r.Order}
 	st := initState(cfg)
 	var tr []mstep
 	for _, s := range r.Trace {
@@ -514,7 +555,7 @@ func c41Replay(c *report.Check, raw []byte) {
 			fmt.Printf("step %s is no longer enabled in the model extracted from this tree\n", e)
 			return
 		}
-		if st, _, err = st.apply(e, tb); err != nil {
+		if st, _, err = st.apply(e, tb, cfg.Order); err != nil {
 			c.Internal(err.Error())
 			return
 		}
